@@ -17,6 +17,15 @@ def mult : COp → Int | .insert _ k => k | .insertAt _ k => k | .reset => 0
 def specCounts (regions : List Rec) (ops : List COp) : List Int :=
   (List.range regions.length).map (fun i => ((sinceReset ops).map (contrib regions i)).sum)
 def specTotal (ops : List COp) : Int := ((sinceReset ops).map mult).sum
+/-- `specCounts` computed with each region paired with its position instead of list indexing (linear in regions ×
+operations): what the driver evaluates on region lists of 10^4–10^5 entries. Equal to `specCounts`
+(`C05_specCountsFast_eq` in `Props/Sound.lean`). -/
+def specCountsFast (regions : List Rec) (ops : List COp) : List Int :=
+  let sr := sinceReset ops
+  regions.zipIdx.map (fun (ri : Rec × Nat) => (sr.map (fun o => match o with
+    | .insert tag k => if ri.1.ov tag then k else 0
+    | .insertAt j k => if ri.2 = j then k else 0
+    | .reset => 0)).sum)
 def InRange (n : Nat) (ops : List COp) : Prop := ∀ o ∈ ops, ∀ i k, o = .insertAt i k → i < n
 
 def bsinceReset (ops : List BOp) : List BOp :=
